@@ -1,7 +1,10 @@
 #!/usr/bin/env python3
 # Probe: C02 timestamps + C03 NaiveDateTime add/sub/difference, real text.
 import sys
-sys.path.insert(0, '/tmp/vprobe')
+import os
+HERE = os.path.dirname(os.path.abspath(__file__))
+OUT = os.environ.get('PROBE_OUT', '/var/tmp')
+sys.path.insert(0, HERE)
 from xprobe import *
 
 DT = Src('/repo/src/datetime/mod.rs')
@@ -159,5 +162,5 @@ NDTM = methods(NDT, impl_ndt, [
 ])
 
 out = PRE + epoch + '\nimpl<Tz: TimeZone> DateTime<Tz> {\n#[verifier::external_body]\nconst fn from_naive_utc_and_offset(datetime: NaiveDateTime, offset: Tz::Offset) -> (r: DateTime<Tz>) ensures r.datetime == datetime { unimplemented!() }\n' + GEN + '}\nimpl DateTime<Utc> {\n' + UTC + '}\nimpl NaiveDateTime {\n' + NDTM + '}\n} // verus!\nfn main() {}\n'
-open('/tmp/vprobe/dt_unit.rs', 'w').write(out)
+open(os.path.join(OUT, 'dt_unit.rs'), 'w').write(out)
 print('ok')
